@@ -26,6 +26,10 @@ pub struct Case {
   pub batch: Option<(u8, u8)>,
   pub msg_kib: u16,
   pub multi_thread: bool,
+  /// the sending socket binds and the peer that does not read connects (otherwise the receiver
+  /// binds and the sender connects)
+  #[serde(default)]
+  pub sender_binds: bool,
 }
 
 fn case_strategy() -> impl Strategy<Value = Case> + Clone {
@@ -38,9 +42,9 @@ fn case_strategy() -> impl Strategy<Value = Case> + Clone {
     prop::sample::select(vec![-1i32, 0, 1, 20, 100, 500]),
     prop::option::of((1u8..9, 1u8..9)),
     prop::sample::select(vec![16u16, 64]),
-    any::<bool>(),
+    (any::<bool>(), prop::bool::weighted(0.4)),
   )
-    .prop_map(|((a, b), transport, sndhwm, rcvhwm, sndtimeo, rcvtimeo, batch, msg_kib, multi_thread)| Case {
+    .prop_map(|((a, b), transport, sndhwm, rcvhwm, sndtimeo, rcvtimeo, batch, msg_kib, (multi_thread, sender_binds))| Case {
       pair: (a.into(), b.into()),
       transport,
       sndhwm,
@@ -50,6 +54,7 @@ fn case_strategy() -> impl Strategy<Value = Case> + Clone {
       batch,
       msg_kib,
       multi_thread,
+      sender_binds,
     })
 }
 
@@ -90,28 +95,29 @@ async fn body(c: &Case, paused: bool) -> L2 {
   if rtype == "DEALER" && stype == "ROUTER" {
     ropts.push((opt::ROUTING_ID, b"peer".to_vec()));
   }
-  // the receiver binds, the sender connects
-  let (receiver, ep) = match stack::bound(&ctx, rtype, c.transport, &ropts).await {
-    Ok(x) => x,
-    Err(e) => return L2::Inconclusive(e),
-  };
-  let sender = match ctx.socket(stack::stype(stype)) {
-    Ok(s) => s,
-    Err(e) => return L2::Inconclusive(e.to_string()),
-  };
-  if let Err(e) = stack::set_opts(&sender, &sopts).await {
-    return L2::Inconclusive(e);
-  }
   if stype == "ROUTER" {
     // otherwise a message for a peer whose identity is not known yet is dropped silently
     // and the flood would never meet a full queue
-    let _ = sender.set_option_raw(opt::ROUTER_MANDATORY, &1i32.to_ne_bytes()).await;
+    sopts.push(stack::i32opt(opt::ROUTER_MANDATORY, 1));
   }
-  let mon = match sender.monitor_default().await {
+  // one side binds, the other connects; the connecting side's monitor reports the handshake
+  let (bind_ty, bind_opts, conn_ty, conn_opts) = if c.sender_binds { (stype, &sopts, rtype, &ropts) } else { (rtype, &ropts, stype, &sopts) };
+  let (binder, ep) = match stack::bound(&ctx, bind_ty, c.transport, bind_opts).await {
+    Ok(x) => x,
+    Err(e) => return L2::Inconclusive(e),
+  };
+  let connector = match ctx.socket(stack::stype(conn_ty)) {
+    Ok(s) => s,
+    Err(e) => return L2::Inconclusive(e.to_string()),
+  };
+  if let Err(e) = stack::set_opts(&connector, conn_opts).await {
+    return L2::Inconclusive(e);
+  }
+  let mon = match connector.monitor_default().await {
     Ok(m) => m,
     Err(e) => return L2::Inconclusive(e.to_string()),
   };
-  if let Err(e) = sender.connect(&ep).await {
+  if let Err(e) = connector.connect(&ep).await {
     return L2::Inconclusive(e.to_string());
   }
   if c.transport != Transport::Inproc {
@@ -119,6 +125,7 @@ async fn body(c: &Case, paused: bool) -> L2 {
       return L2::Inconclusive("no HandshakeSucceeded".into());
     }
   }
+  let (sender, receiver) = if c.sender_binds { (binder, connector) } else { (connector, binder) };
   tokio::time::sleep(Duration::from_millis(50)).await;
   let size = c.msg_kib as usize * 1024;
   let v = |check: &str, d: String| {
@@ -454,7 +461,7 @@ fn run_paused<F: std::future::Future<Output = L2>>(ceiling_real: Duration, desc:
 }
 
 pub fn run(run: &mut Run) {
-  run.rule = "cases = sender/receiver pair in {PUSH->PULL, DEALER->DEALER, DEALER->ROUTER, ROUTER->DEALER} x transport (inproc on a paused clock, tcp/ipc on the real clock) x SNDHWM, RCVHWM in {1,2,10,100} x SNDTIMEO in {-1,0,1,20,100,500} x RCVTIMEO in {-1,0,1,20,100,500} x SNDBATCH/RCVBATCH_COUNT unset or 1..8 x 16/64 KiB messages; first recv on an empty queue, then flood until the first refusal, then drain behind a sentinel; recv_timeout_under_peer_churn: a parked recv with RCVTIMEO in {100,250,400} ms on PULL/ROUTER/DEALER/SUB/REP while 2..8 silent peers connect (and every second one leaves again) 20..120 ms apart. Non-trivial = the flood reached a refusal (the queue really was full). Distinct = hash of the case".into();
+  run.rule = "cases = sender/receiver pair in {PUSH->PULL, DEALER->DEALER, DEALER->ROUTER, ROUTER->DEALER} x transport (inproc on a paused clock, tcp/ipc on the real clock) x SNDHWM, RCVHWM in {1,2,10,100} x SNDTIMEO in {-1,0,1,20,100,500} x RCVTIMEO in {-1,0,1,20,100,500} x SNDBATCH/RCVBATCH_COUNT unset or 1..8 x 16/64 KiB messages x which side binds (the sender in 40%); first recv on an empty queue, then flood until the first refusal, then drain behind a sentinel; recv_timeout_under_peer_churn: a parked recv with RCVTIMEO in {100,250,400} ms on PULL/ROUTER/DEALER/SUB/REP while 2..8 silent peers connect (and every second one leaves again) 20..120 ms apart. Non-trivial = the flood reached a refusal (the queue really was full). Distinct = hash of the case".into();
   run.assumptions = vec![
     "bound on accepted messages = 3*(SNDHWM+RCVHWM) + 2*(SNDBATCH_COUNT + RCVBATCH_COUNT) (256 when unset) + kernel allowance (tcp/ipc: 8*64KiB/size + 8) + 64 - generous on purpose: the property names no constant, only boundedness by the HWMs plus a fixed allowance".into(),
     "real-clock slack: +600 ms on positive timeouts, 500 ms on zero (scheduling noise on a loaded machine; a timeout that is ignored or restarted overruns by far more); paused clock: exact (5-10 ms)".into(),
@@ -467,6 +474,7 @@ pub fn run(run: &mut Run) {
   run.prop("flood_and_drain", n, 4, 6, case_strategy(), |c, rec: &mut CaseRec| {
     rec.nontrivial = true;
     rec.label(c.transport.name());
+    rec.label_if(c.sender_binds, "sender_binds");
     rec.label(match c.sndtimeo {
       -1 => "sndtimeo_infinite",
       0 => "sndtimeo_zero",
